@@ -500,11 +500,154 @@ def pred_wb_safe(inp):
     return True, 'ok'
 
 
+# ------------------------------------------------------------------------------------------------
+# memory layouts: the same values as a C-contiguous / Fortran-ordered array, a transposed view, a strided view, a view
+# with negative strides.  Every entry point must give, for every layout, what it gives for the C-contiguous array.
+# ------------------------------------------------------------------------------------------------
+LAYOUTS = ('F', 'T', 'strided', 'negative', 'mixed')
+
+
+def _layout(a, kind):
+    a = np.ascontiguousarray(a)
+    if kind == 'C':
+        return a
+    if kind == 'F':
+        return np.asfortranarray(a)
+    if kind == 'T':                       # transposed VIEW of a C-contiguous array (does not own its data)
+        return np.ascontiguousarray(a.T).T
+    if kind == 'strided':
+        big = np.zeros(tuple(2 * n + 1 for n in a.shape), dtype=a.dtype)
+        sl = tuple(slice(1, None, 2) for _ in a.shape)
+        big[sl] = a
+        return big[sl]
+    rev = tuple(slice(None, None, -1) for _ in a.shape)
+    if kind == 'negative':
+        return np.ascontiguousarray(a[rev])[rev]
+    if kind == 'mixed':                   # Fortran order, last axis reversed in memory
+        last = (slice(None),) * (a.ndim - 1) + (slice(None, None, -1),)
+        return np.asfortranarray(a[last])[last]
+    raise ValueError(kind)
+
+
+def _same_result(r1, r0, exact):
+    if isinstance(r0, (tuple, list)):
+        return len(r1) == len(r0) and all(_same_result(x, y, exact) for x, y in zip(r1, r0))
+    r1, r0 = np.asarray(r1), np.asarray(r0)
+    if r1.shape != r0.shape or r1.dtype != r0.dtype:
+        return False
+    if exact or r0.dtype.kind in 'biu':
+        return np.array_equal(r1, r0)
+    return np.allclose(r1, r0, rtol=1e-12, atol=1e-12, equal_nan=True)
+
+
+def _layout_call(fn, a, inp):
+    """one entry point of detector.py / bayer.py on the array `a` (already in the layout under test)"""
+    det, by, _ = _impl()
+    if fn == 'expose':
+        cfg = dict(inp['cfg'])
+        if inp.get('maps'):
+            kind = inp['_kind']
+            cfg['prnu'] = _layout(np.asarray(inp['prnu'], dtype=float), kind)
+            cfg['dcnu'] = _layout(np.asarray(inp['dcnu'], dtype=float), kind)
+        d = det.Detector(cfg['dc'], 3.0, cfg['bias'], cfg['fwc'], cfg['gain'], cfg['bits'], cfg['t'], prnu=cfg.get('prnu'), dcnu=cfg.get('dcnu'))
+        with noise_off():
+            return d.expose(a, frames=inp.get('frames', 1))
+    if fn == 'bindown':
+        return det.bindown(a, inp['factor'], 'sum'), det.bindown(a, inp['factor'], 'avg')
+    if fn == 'tile':
+        return np.asarray(det.tile(a, inp['factor'], 'sum')), np.asarray(det.tile(a, inp['factor'], 'avg'))
+    if fn == 'decomposite':
+        return by.decomposite_bayer(a, inp['cfa'])
+    if fn == 'recomposite':                # the four planes are the four quadrant blocks of `a`, each in the layout
+        m, n = a.shape[0] // 2, a.shape[1] // 2
+        kind = inp['_kind']
+        planes = [_layout(np.ascontiguousarray(a)[i * m:(i + 1) * m, j * n:(j + 1) * n], kind) for i in (0, 1) for j in (0, 1)]
+        return by.recomposite_bayer(*planes, cfa=inp['cfa'])
+    if fn == 'composite':
+        kind = inp['_kind']
+        base = np.ascontiguousarray(a)
+        planes = [_layout(np.roll(base, k, axis=1) if base.dtype.kind == 'b' else (base + base.dtype.type(k)), kind) for k in range(4)]
+        return by.composite_bayer(*planes, cfa=inp['cfa'])
+    if fn == 'malvar':
+        return by.demosaic_malvar(a, inp['cfa'])
+    if fn == 'deinterlace':
+        return by.demosaic_deinterlace(a, inp['cfa'])
+    if fn == 'wb_prescale':                # in place on the caller's (possibly non-contiguous) array
+        work = _layout(np.array(a), inp['_kind'])
+        by.wb_prescale(work, *inp['gains'], cfa=inp['cfa'], safe=bool(inp.get('saturation')), saturation=inp.get('saturation'))
+        return np.ascontiguousarray(work)
+    if fn == 'wb_postscale':
+        work = _layout(np.array(a), inp['_kind'])
+        by.wb_postscale(work, *inp['gains'][:3], safe=bool(inp.get('saturation')), saturation=inp.get('saturation'))
+        return np.ascontiguousarray(work)
+    raise ValueError(fn)
+
+
+def pred_layouts(inp):
+    """every memory layout of the same (spatially non-uniform) array gives what the C-contiguous array gives"""
+    fn = inp['fn']
+    a = _typed(inp['a'], inp)
+    ref = _layout_call(fn, _layout(a, 'C'), dict(inp, _kind='C'))
+    for kind in inp.get('layouts', LAYOUTS):
+        v = _layout(a, kind)
+        assert np.array_equal(v, a)
+        keep = v.copy()
+        try:
+            got = _layout_call(fn, v, dict(inp, _kind=kind))
+        except Exception as ex:
+            return False, f'{fn} on a {a.dtype} array in layout {kind!r} (strides {v.strides}) raised {type(ex).__name__}: {ex}'
+        if not _same_result(got, ref, exact=(fn not in ('malvar', 'bindown', 'tile', 'wb_prescale', 'wb_postscale', 'deinterlace'))):
+            g0 = got[0] if isinstance(got, (tuple, list)) else got
+            r0 = ref[0] if isinstance(ref, (tuple, list)) else ref
+            nbad = int((np.asarray(g0) != np.asarray(r0)).sum()) if np.shape(g0) == np.shape(r0) else -1
+            return False, (f'{fn} on a {a.dtype} array of shape {a.shape} in layout {kind!r} (strides {v.strides}) differs from the '
+                           f'C-contiguous result: {nbad} samples differ' if nbad >= 0 else
+                           f'{fn} in layout {kind!r}: result shape {np.shape(g0)} vs {np.shape(r0)}')
+        if fn not in ('wb_prescale', 'wb_postscale') and not np.array_equal(v, keep):
+            return False, f'{fn} modified its {kind!r}-layout input in place'
+    return True, 'ok'
+
+
+def _layout_cases(rng, m, n, quick):
+    """(fn, input) for every entry point on an m x n (even, non-uniform) array, dtypes the clean tree accepts"""
+    out = []
+    base = (np.arange(m * n).reshape(m, n) * 7 + rng.integers(0, 5, size=(m, n))) % 251 + 1      # distinct-ish, non-uniform, fits uint8
+    cube = (np.arange(2 * m * n).reshape(2, m, n) * 5 + 3) % 241 + 1
+    cfg = {'dc': 2.0, 'bias': 11.0, 'fwc': 1e15, 'gain': 0.5, 'bits': 12, 't': 1.0, 'prnu': None, 'dcnu': None}
+    maps = {'prnu': (0.8 + 0.4 * rng.random((m, n))).tolist(), 'dcnu': (0.5 + rng.random((m, n))).tolist()}
+    dts = ('float64', 'float32', 'int32', 'uint8', 'uint16', 'bool', 'int64')
+    pick = (lambda k: [dts[(k + m + n) % len(dts)], 'float64']) if quick else (lambda k: list(dts))
+    for dt in set(pick(0)):
+        a = ((base % 2) == 0) if dt == 'bool' else base
+        out.append(('expose', {'a': a.tolist(), 'dtype': dt, 'cfg': cfg}))
+        out.append(('expose', {'a': a.tolist(), 'dtype': dt, 'cfg': dict(cfg, bits=8), 'frames': 2, 'maps': True, **maps}))
+    out.append(('expose', {'a': cube.tolist(), 'dtype': 'float64', 'cfg': cfg}))
+    for k, (fn, extra) in enumerate((('bindown', {'factor': [2, 1]}), ('bindown', {'factor': 2}), ('tile', {'factor': [1, 3]}), ('tile', {'factor': 2}),
+                                     ('decomposite', {}), ('recomposite', {}), ('composite', {}), ('deinterlace', {}))):
+        for dt in set(pick(k + 1)):
+            a = ((base % 3) == 0) if dt == 'bool' else base
+            if fn == 'deinterlace' and dt == 'bool':
+                continue                                       # (g1 + g2) / 2 of booleans: not meaningful
+            for cfa in (('rggb', 'bggr') if 'composite' in fn or fn in ('decomposite', 'deinterlace') else (None,)):
+                out.append((fn, dict(extra, a=a.tolist(), dtype=dt, **({'cfa': cfa} if cfa else {}))))
+    out.append(('bindown', {'a': cube.tolist(), 'dtype': 'float64', 'factor': [1, 2, 2]}))
+    out.append(('tile', {'a': cube.tolist(), 'dtype': 'uint16', 'factor': [2, 1, 2]}))
+    for dt in ('float64', 'float32'):
+        for cfa in ('rggb', 'bggr'):
+            out.append(('malvar', {'a': base.tolist(), 'dtype': dt, 'cfa': cfa}))
+            out.append(('wb_prescale', {'a': base.tolist(), 'dtype': dt, 'cfa': cfa, 'gains': [1.5, 0.75, 1.25, 2.0]}))
+            out.append(('wb_prescale', {'a': base.tolist(), 'dtype': dt, 'cfa': cfa, 'gains': [1.5, 0.75, 1.25, 2.0], 'saturation': [200.0, 150.0, 100.0, 220.0]}))
+        rgb = np.stack([base, base[::-1], base[:, ::-1]], axis=2)
+        out.append(('wb_postscale', {'a': rgb.tolist(), 'dtype': dt, 'gains': [1.5, 0.75, 1.25]}))
+        out.append(('wb_postscale', {'a': rgb.tolist(), 'dtype': dt, 'gains': [1.0, 1.0, 1.0], 'saturation': [200.0, 120.0, 90.0]}))
+    return out
+
+
 PREDS = {'dn_range': pred_dn_range, 'dn_monotone': pred_dn_monotone, 'dn_formula': pred_dn_formula, 'dn_frames': pred_dn_frames,
          'bin': pred_bin, 'tile': pred_tile, 'bin_tile_adjoint': pred_adjoint, 'expose_bin': pred_expose_bin, 'bayer_roundtrip': pred_bayer_roundtrip,
          'bayer_composite': pred_bayer_composite, 'malvar_native': pred_malvar_native, 'malvar_constant': pred_malvar_constant,
          'wb_prescale': pred_wb, 'wb_safe': pred_wb_safe, 'wb_postscale': pred_wb_post, 'dn_real_rng': pred_dn_real_rng,
-         'expose_draws': pred_expose_draws, 'mode_spellings': pred_mode_spellings}
+         'expose_draws': pred_expose_draws, 'mode_spellings': pred_mode_spellings, 'layouts': pred_layouts}
 
 
 def _run_pred(name, inp):
@@ -782,6 +925,14 @@ def correspondence(ctx):
             _check(ctx, 'expose_bin', {'cfg': cfg, 'img': img.tolist(), 'factor': f},
                    {'bits': bits, 'shape': list(shape), 'factor': f, 'level': level}, True, f'bits{bits}')
 
+    # ---------------- memory layouts (Fortran, transposed view, strided, negative strides) x dtypes, every entry point
+    for (m, n) in ((4, 6), (2, 4), (6, 2)) + (((8, 10), (4, 4), (10, 6)) if ctx.thorough else ()):
+        for fn, inp in _layout_cases(rng, m, n, quick=not ctx.thorough):
+            inp = dict(inp, fn=fn)
+            _check(ctx, 'layouts', inp, {'fn': fn, 'shape': list(np.shape(inp['a'])), 'dtype': inp['dtype'], 'cfa': inp.get('cfa'),
+                                         'factor': inp.get('factor'), 'maps': bool(inp.get('maps')), 'sat': bool(inp.get('saturation'))},
+                   True, f'{fn}/{inp["dtype"]}')
+
     # ---------------- Bayer
     for (m, n) in BAYER_SHAPES:
         for cfa in ('rggb', 'bggr'):
@@ -945,6 +1096,18 @@ def search(ctx, hints):
             ok, detail = _run_pred(name, inp)
             if not ok:
                 return found(name, inp, detail)
+    srng = np.random.Generator(np.random.PCG64(5))
+    for (m, n) in ((2, 4), (4, 6)):
+        for fn, inp in _layout_cases(srng, m, n, quick=False):
+            inp = dict(inp, fn=fn)
+            ok, detail = _run_pred('layouts', inp)
+            if not ok:
+                # smallest layout set that still fails
+                for kind in LAYOUTS:
+                    ok1, d1 = _run_pred('layouts', dict(inp, layouts=[kind]))
+                    if not ok1:
+                        return found('layouts', dict(inp, layouts=[kind]), d1)
+                return found('layouts', inp, detail)
     # binning / tiling, small shapes
     for (shape, f) in sorted(BIN_SHAPES, key=lambda p: int(np.prod(p[0]))):
         fl = [f] * len(shape) if isinstance(f, int) else list(f)
@@ -1001,7 +1164,7 @@ def replay(inp):
     if name not in PREDS:
         print('no replay routine for item', name)
         return False
-    brief = {k: v for k, v in inp.items() if k in ('cfg', 'factor', 'cfa', 'frames', 'gains', 'saturation', 'shape', 'level', 'dtype', 'seed', 'kind')}
+    brief = {k: v for k, v in inp.items() if k in ('cfg', 'factor', 'cfa', 'frames', 'gains', 'saturation', 'shape', 'level', 'dtype', 'seed', 'kind', 'fn', 'layouts', 'maps')}
     print(f'replaying {name}: {brief}')
     if name.startswith('dn_') and name != 'dn_real_rng':
         try:
